@@ -232,7 +232,7 @@ def run(check, an: Analysis):
                      for e in path.events)
         queued = any(is_call_to(e, 'push') or (
             e.kind == 'call' and isinstance(e.node, ast.Call)
-            and ast.unparse(e.node.func) == 'self._pending.append') for e in path.events)
+            and rules.text_at(path, e, e.node.func) == 'self._pending.append') for e in path.events)
         n += 1
         if given and not key_truth(given[-1]):
             verdict &= marked
@@ -302,7 +302,7 @@ def _check_signal_lifecycles(check, an: Analysis, wrapper):
                 sched = [i for i, e in enumerate(path.events) if is_call_to(e, 'schedule')]
                 reg = [i for i, e in enumerate(path.events) if e.kind == 'call'
                        and isinstance(e.node, ast.Call)
-                       and ast.unparse(e.node.func) == 'self._cancellations.append']
+                       and rules.text_at(path, e, e.node.func) == 'self._cancellations.append']
                 if sched:
                     ok_reg &= bool(reg) and reg[0] < sched[0]
             revoked, body_ok = True, True
@@ -339,7 +339,8 @@ def _check_signal_lifecycles(check, an: Analysis, wrapper):
                     n += 1
                 elif armed is not None and event.kind == 'call' and \
                         isinstance(event.node, ast.Call) and (
-                        ast.unparse(event.node.func) == '%s.revoke' % name or (
+                        rules.value_text(path, rules.event_index(path, event), event.node.func,
+                                         keep=(name,)) == '%s.revoke' % name or (
                             isinstance(event.node.func, ast.Attribute)
                             and event.node.func.attr == '__unsubscribe__'
                             and _passes_name(event.node, name))):
@@ -392,10 +393,10 @@ def _check_subscribe_protocol(check, an: Analysis):
                 continue
             n_sub += 1
             park = [e for e in path.events if e.kind == 'call' and isinstance(
-                e.node, ast.Call) and ast.unparse(e.node.func) == 'self._waiting.append']
+                e.node, ast.Call) and rules.text_at(path, e, e.node.func) == 'self._waiting.append']
             sched = [e for e in path.events if is_call_to(e, 'schedule')
                      and isinstance(e.node, ast.Call) and e.node.args
-                     and ast.unparse(e.node.args[0]) == 'waiter']
+                     and rules.text_at(path, e, e.node.args[0]) == 'waiter']
             for event in park:
                 parked.add(event.recv)
             if sched and not park:
@@ -412,7 +413,7 @@ def _check_subscribe_protocol(check, an: Analysis):
             n_unsub += 1
             for event in path.events:
                 if event.kind in ('call', 'enter') and isinstance(event.node, ast.Call):
-                    text = ast.unparse(event.node.func)
+                    text = rules.text_at(path, event, event.node.func)
                     if text == 'self._waiting.remove':
                         removed.add(event.recv)
                     elif text == 'interrupt.revoke':
